@@ -198,8 +198,8 @@ TDiagEmbed(x) ==
 TDiagExtract(A) ==
     [k |-> "tt",
      c |-> [p \in 1..Order(A) |->
-        MkCore(LRank(A.c[p]), ISize(A.c[p]), 1, RRank(A.c[p]),
-               LAMBDA a, i, j, b : A.c[p][a][i][i][b])]]
+        MkCore(LRank(A.c[p]), IF ISize(A.c[p]) <= JSize(A.c[p]) THEN ISize(A.c[p]) ELSE JSize(A.c[p]), 1, RRank(A.c[p]),
+               LAMBDA a, i, j, b : A.c[p][a][i][i][b])]]      \* (rectangular modes: the diagonal has min(M, N) entries)
 
 \* ================================================= indexing (dense level, C08)
 \* An index expression is a sequence of items
